@@ -21,6 +21,8 @@ claimed = {
          "UAPI numbers transcribed from /usr/include/linux/audit.h into the harness; kernel simulated. Known finding: LogOnFailure/PanicOnFailure constants (not repairable safely, see known_findings.txt)."),
  "C17": ("Histories of NoWait/WaitForReply setters, WaitForPendingACKs, GetRules and Close against the simulated kernel with a single reused receive buffer and symbolic errno per request: each NoWait ACK consumed exactly once and in order, first kernel error returned, no re-waiting, Close closes once and clears the PID iff SetPID was used, returned rule data never changes later.",
          "Bounds: histories of 3 (quick) / 4-5 (thorough) operations; domain: reply-waiting commands only when no NoWait ACK is outstanding; sequential Close only in this job."),
+ "C18": ("NetlinkClient.Send/Receive and parseNetlinkAuditMessage executed symbolically with the socket syscalls replaced by harness stubs: header length/type/flags/pid/sequence and verbatim payload for all header values; sequence increases by one; 2-3 concurrent senders explored over every interleaving at synchronisation operations with vector-clock race detection; Receive for every datagram length 0..24 (thorough 0..64, 8986) x sender kinds x writer kinds: error and no data for short or non-kernel datagrams, exact bytes to the parser otherwise.",
+         "Socket syscalls are stubs, so counterexamples are confirmed in the engine's concrete mode, not natively. Real sockets (NETLINK_ROUTE/USERSOCK observations) are outside."),
 }
 props=[json.loads(l)['id'] for l in open('/verif/properties.jsonl')]
 checks=[]
